@@ -482,6 +482,26 @@ IterClauses(T, prev, ev, post) ==
 CoverageClauses(T, prev, ev, post) ==
        If(Rng(ev.seen) # 1..ev.M, {Tag("C19:machines-not-drawn-from-all", <<ev.M, ev.k>>)})
 
+(* --- C20: Gantt charts and animation frames ------------------------------------- *)
+PlotClauses(T, prev, ev, post) ==
+    LET I == T.inst  sch == ev.sched
+ IN
+    IF ev.out # "ok" THEN {Tag("C20:plot-raised", ev.out)}
+    ELSE LET present == {e[1] : e \in AllE(sch)}
+             legJobs == [i \in DOMAIN ev.legend |-> ev.legend[i][1]]
+             col == [j \in present |-> LET hits == {i \in DOMAIN ev.legend : ev.legend[i][1] = j}
+                                       IN IF hits = {} THEN -1 ELSE ev.legend[MinOf(hits)][2]]
+             want == UNION {{<<m, sch[m][i][3], Dur(I, EOp(sch[m][i])), col[sch[m][i][1]]>> : i \in DOMAIN sch[m]}
+                            : m \in DOMAIN sch}
+             axisEnd == IF ev.req_xlim # 0 THEN ev.req_xlim ELSE MakespanDef(I, sch)
+         IN If(~SameBag(legJobs, present), {C("C20:legend-jobs")})
+       \cup If(Rng(ev.bars) # want \/ Len(ev.bars) # NumScheduled(sch), {C("C20:bars")})
+       \cup If(axisEnd > 0 /\ (ev.xlim_lo # 0 \/ ev.xlim_hi # axisEnd \/ ev.last_tick # axisEnd), {C("C20:time-axis")})
+FramesClauses(T, prev, ev, post) ==
+    IF ev.out # "ok" THEN {Tag("C20:animation-raised", ev.out)}
+    ELSE   If(Len(ev.ks) # ev.n, {Tag("C20:frame-count", ev.n)})
+      \cup If(Len(ev.ks) = ev.n /\ ev.ks # [i \in 1..ev.n |-> i], {Tag("C20:frame-order", ev.n)})
+
 KindsOf(kinds, subs) == [i \in DOMAIN subs |-> IF subs[i] = 0 THEN "other" ELSE kinds[subs[i]]]
 
 CreateClauses(T, prev, ev, post) ==
@@ -536,6 +556,8 @@ DClauses(T, l, prev, post) ==
            [] ev.a = "Generate"    -> GenerateClauses(T, prev, ev, post)
            [] ev.a = "Iter"        -> IterClauses(T, prev, ev, post)
            [] ev.a = "Coverage"    -> CoverageClauses(T, prev, ev, post)
+           [] ev.a = "Plot"        -> PlotClauses(T, prev, ev, post)
+           [] ev.a = "Frames"      -> FramesClauses(T, prev, ev, post)
            [] ev.a = "Graph"       -> GraphClauses(T, prev, ev, post)
            [] ev.a = "Solved"      -> SolvedClauses(T, prev, ev, post)
            [] ev.a = "CreateObs"   -> CreateObsClauses(T, prev, ev, post)
